@@ -599,7 +599,9 @@ class StreamResultRouter(StreamResult):
         if not policy_method:
             raise ValueError(f"bad policy {policy!r}")
         policy_method(self, sink, **policy_args)
-        if do_start_stop_run:
+        if do_start_stop_run and not any(sink is known for known in self._sinks):
+            # (A sink that several rules - or the fallback and a rule - ask
+            # this for is still started and stopped once per run.)
             self._sinks.append(sink)
             if self._in_run:
                 sink.startTestRun()
